@@ -57,6 +57,10 @@ class Ctx:
                 f, info = factsmod.extract(config)
             except factsmod.Inconclusive as e:
                 raise Inconclusive(str(e))
+            from . import inline
+            inl = inline.inline_helpers(f)
+            if inl:
+                info = dict(info, inlined_helpers=inl)
             self.fact_info[config] = info
             m = Model(f)
             self._models[config] = m
